@@ -55,6 +55,7 @@ Ltac norm_hyps :=
   | H : _ /\ _ |- _ => destruct H
   | H : True |- _ => clear H
   | H : Some _ = Some _ |- _ => injection H as H
+  | H : ASize _ = ASize ?b |- _ => injection H as H; try subst b
   | H : (_ <=? _) = true |- _ => apply Z.leb_le in H
   | H : (_ <? _) = true |- _ => apply Z.ltb_lt in H
   | H : (_ =? _) = true |- _ => apply Z.eqb_eq in H
@@ -104,4 +105,5 @@ Ltac prep I :=
   norm_hyps; list_len;
   enum_sizes;
   norm_hyps; list_len;
+  repeat match goal with H : _ = ?v |- _ => is_var v; subst v end;
   unfold I.
